@@ -11,6 +11,7 @@ import (
 
 	"verifharness/gen"
 	"verifharness/inst"
+	"verifharness/ref"
 	"verifharness/stat"
 )
 
@@ -19,7 +20,8 @@ import (
 type c18Case struct {
 	Opts     wopts    `json:"opts"`
 	Data     gen.Data `json:"data"`
-	Sizes    []int    `json:"sizes"` // cyclic Read buffer sizes (0 allowed)
+	Head     []int    `json:"head,omitempty"` // sizes of the first reads (aimed at the structure of the expected frame), then Sizes cyclically
+	Sizes    []int    `json:"sizes"`          // cyclic Read buffer sizes (0 allowed)
 	Src      []int    `json:"src,omitempty"`
 	EOFW     bool     `json:"eofwith,omitempty"`
 	FailAt   int      `json:"failat,omitempty"`
@@ -81,7 +83,7 @@ func runC18(c c18Case, rec *stat.Rec) *stat.Failure {
 	rec.Eval()
 	var out []byte
 	maxSz := 1
-	for _, s := range c.Sizes {
+	for _, s := range append(append([]int{}, c.Head...), c.Sizes...) {
 		if s > maxSz {
 			maxSz = s
 		}
@@ -92,13 +94,18 @@ func runC18(c c18Case, rec *stat.Rec) *stat.Failure {
 	pendingSeen := false
 	sizesUsed := map[int]bool{}
 	for i := 0; ; i++ {
-		sz := c.Sizes[i%len(c.Sizes)]
+		sz := 0
+		if i < len(c.Head) {
+			sz = c.Head[i]
+		} else {
+			sz = c.Sizes[(i-len(c.Head))%len(c.Sizes)]
+		}
 		sizesUsed[sz] = true
 		for j := range buf {
 			buf[j] = 0xA7
 		}
 		n, err := cr.Read(buf[:sz])
-		desc := fmt.Sprintf("%s, %d bytes in, sizes %v: call %d Read(%d)", c.Opts, len(data), c.Sizes, i, sz)
+		desc := fmt.Sprintf("%s, %d bytes in, head %v sizes %v: call %d Read(%d)", c.Opts, len(data), c.Head, c.Sizes, i, sz)
 		if n < 0 || n > sz {
 			return stat.Failf("C18/n-out-of-range", "%s returned n=%d", desc, n)
 		}
@@ -130,7 +137,7 @@ func runC18(c c18Case, rec *stat.Rec) *stat.Failure {
 			return stat.Failf("C18/never-ends", "%s: no end after 2^22 calls", desc)
 		}
 	}
-	desc := fmt.Sprintf("%s, %d bytes in, sizes %v, source chunks %v", c.Opts, len(data), c.Sizes, c.Src)
+	desc := fmt.Sprintf("%s, %d bytes in, head %v sizes %v, source chunks %v", c.Opts, len(data), c.Head, c.Sizes, c.Src)
 	if c.FailAt > 0 && src.Failed > 0 {
 		if !errors.Is(final, inst.ErrInjected) {
 			return stat.Failf("C18/source-error-not-passed-through/"+errClass(final), "%s: source failed at call %d, Read returned %v", desc, c.FailAt, final)
@@ -171,6 +178,9 @@ func runC18(c c18Case, rec *stat.Rec) *stat.Failure {
 	}
 	if small {
 		rec.Class("sizes/below-header-size")
+	}
+	if len(c.Head) > 0 {
+		rec.Class("sizes/aimed-at-field-boundaries")
 	}
 	rec.Sample(map[string]interface{}{"opts": o.String(), "len": len(data), "sizes": c.Sizes, "source chunks": c.Src, "frame": len(out)})
 	return nil
@@ -218,6 +228,29 @@ func drawC18(t *rapid.T) c18Case {
 	if !nonzero && rapid.IntRange(0, 9).Draw(t, "allowallzero") != 0 {
 		c.Sizes = append(c.Sizes, 5)
 	}
+	if n > 0 && rapid.IntRange(0, 2).Draw(t, "aimed?") == 0 {
+		// first reads that end exactly on (or one byte around) field boundaries of the frame that is going to come out:
+		// exact fits and exact drains of the carried-over bytes
+		o := c.Opts
+		z, f := emit(wopts{BS: o.BS, BlockSum: o.BlockSum, ContentSum: o.ContentSum, Size: o.Size, Level: o.Level, Conc: 1}, c.Data.Build(), "readfrom", delivery{Mode: "readfrom"}, nil)
+		if f == nil {
+			fr := ref.ParseFrame(z, ref.Walk)
+			var marks []int
+			for _, fd := range fr.Fields {
+				marks = append(marks, fd.Off, fd.Off+fd.Len)
+			}
+			k := rapid.IntRange(1, 4).Draw(t, "naimed")
+			pos := 0
+			for i := 0; i < k && len(marks) > 0; i++ {
+				m := rapid.SampledFrom(marks).Draw(t, "mark") + rapid.SampledFrom([]int{0, 0, 0, -1, 1}).Draw(t, "markdelta")
+				if m > pos {
+					c.Head = append(c.Head, m-pos)
+					pos = m
+				}
+			}
+			c.Head = append(c.Head, rapid.SampledFrom([]int{1, 10, 1000, 2 * bs}).Draw(t, "afterhead"))
+		}
+	}
 	if rapid.IntRange(0, 2).Draw(t, "frag?") == 0 {
 		c.Src = drawChunkSchedule(t, bs, "src")
 		c.EOFW = rapid.Bool().Draw(t, "eofwith")
@@ -248,6 +281,6 @@ const c18Rule = "rapid-drawn (input x options x Read size sequence x source beha
 func TestC18(t *testing.T) {
 	rec := stat.For("C18")
 	rec.SetRule(c18Rule)
-	rec.Require("nontrivial", "reuse/reset-after-a-source-failure", "source-error-wrapping-EOF-passed-through", "sizes/below-header-size", "source-error-passed-through", "source/fragmented", "input/empty", "input/k*bs", "input/bs")
+	rec.Require("nontrivial", "sizes/aimed-at-field-boundaries", "reuse/reset-after-a-source-failure", "source-error-wrapping-EOF-passed-through", "sizes/below-header-size", "source-error-passed-through", "source/fragmented", "input/empty", "input/k*bs", "input/bs")
 	checkProp(t, "C18", "C18/read", pick(6000, 150000), drawC18, runC18)
 }
